@@ -144,6 +144,45 @@ def run(ctx):
                     ctx.violation('torch %s: z1 then z2 differs from z1 + z2 on a stack of %d fields (%dx%d, diff %.3g)' % (meth, kk, n, m, W.maxdiff(two, one)),
                                   rec, {'api': 'torch', 'method': meth, 'what': 'composition', 'stack': True})
 
+    # ---- a PROGRAM of steps configured once: one `zero_padding` list object (and, second variant, the function's own default) is used by every step,
+    # and the program also looks at the far field (Fraunhofer) and the other propagation types of the same setup in between.  Distance 0 stays the
+    # identity and z, -z still compose afterwards.
+    import odak.learn.wave as LWp
+    for (n, m) in [(6, 6), (5, 8), (7, 5)]:          # sides >= 5: zero_pad reads a last axis shorter than 5 as channels
+        for meth in ('Angular Spectrum', 'Transfer Function Fresnel', 'Bandlimited Angular Spectrum'):
+            dx, lam, z, zc = W.rand_optics(rng, 'near')
+            k = 2 * math.pi / lam
+            u = torch.from_numpy(W.rand_field(rng, n, m, 'gauss'))
+            scale = max(1.0, float(u.abs().max()))
+            for variant in ('shared list', 'default argument'):
+                cfg = [True, False, True]
+                kw = {'zero_padding': cfg} if variant == 'shared list' else {}
+                rec = {'api': 'torch', 'method': meth, 'n': n, 'm': m, 'dx': dx, 'lam': lam, 'z': z, 'program': variant}
+                ctx.case(('program', meth, n, m, variant), True)
+                ctx.count('program_with_one_configuration/' + variant)
+                try:
+                    before = LWp.propagate_beam(u, k, 0.0, dx, lam, propagation_type=meth, **kw)
+                    for other in W.T_ALL:
+                        if other != meth:
+                            try:
+                                LWp.propagate_beam(u, k, z, dx, lam, propagation_type=other, **kw)
+                            except (Exception, SystemExit):
+                                pass
+                    after = LWp.propagate_beam(u, k, 0.0, dx, lam, propagation_type=meth, **kw)
+                except Exception as e:
+                    ctx.note('program with one configuration raised %r (%s)' % (e, rec))
+                    continue
+                if cfg != [True, False, True]:
+                    ctx.violation('propagate_beam changed the caller\'s zero_padding list to %s during a program of steps' % (cfg,), rec,
+                                  {'api': 'torch', 'method': meth, 'what': 'configuration_changed'})
+                elif before.shape != u.shape or not W.maxdiff(before.numpy(), u.numpy()) <= 1e-4 * scale:
+                    ctx.violation('torch %s at distance 0 with pad-then-crop (%s) is not the identity on a %dx%d field' % (meth, variant, n, m), rec,
+                                  {'api': 'torch', 'method': meth, 'what': 'zero_identity', 'program': True})
+                elif after.shape != u.shape or not W.maxdiff(after.numpy(), u.numpy()) <= 1e-4 * scale:
+                    ctx.violation('torch %s at distance 0 with pad-then-crop (%s) is the identity at the start of a program but not after the program looked at the '
+                                  'other propagation types of the same setup: shape %s -> %s, diff %.3g' % (meth, variant, tuple(u.shape), tuple(after.shape),
+                                                                                                      W.maxdiff(after.numpy(), u.numpy())), rec,
+                                  {'api': 'torch', 'method': meth, 'what': 'zero_identity_after_other_steps', 'program': True})
     # ---- kernel products through get_propagation_kernel
     import odak.learn.wave as LW
     for (n, m) in [(4, 5), (7, 7), (6, 3)]:
